@@ -711,6 +711,18 @@ def prepare_signature(g, thr, cls):
             if effects:
                 problems.append("the part is created although mapsTo returned no image block (LeftIndex.isCorrect() not tested)")
     if n_with == 0:
+        # the image block is not mapsTo(RightIndex): if it is a conditional one of whose arms is the right block itself, the code
+        # assumes that the operator keeps the block, which holds for some partitions only (positive evidence); anything else is
+        # a form this rule does not analyse
+        for j, n in g.walk(g.body):
+            if n["k"] == "new":
+                c = inl(ctx.key(j, inline=False))
+                c = c[2] if c[0] == "new" else c
+                if c[0] == "ctor" and len(c) >= 6 and c[5][0] == "mcall" and c[5][1] == "Pomerol::Hamiltonian::getPart":
+                    img = deconv(c[5][3])
+                    if img[0] == "cond" and Lkey in (deconv(img[2]), deconv(img[3])) and R[:2] in (deconv(img[2])[:2], deconv(img[3])[:2]):
+                        problems.append("the image block is taken to be the right block itself when (%s) instead of mapsTo(RightIndex): that the operator does not leave the block is true for some partitions only (e.g. (N, S_z)), with finer symmetries the part is bound to the wrong left block" % fact_str(("true", img[1]))[:80])
+                        return ("bad",), sorted(set(problems))
         raise AnalysisBroken("%s: no path under LeftIndex.isCorrect() found" % g.qn)
     return (sig if not problems else ("bad",)), sorted(set(problems))
 
